@@ -82,7 +82,7 @@ def status_provenance(rep, F, E, tag, rid, statuses, full_fn, slot):
         pp = F.one(name='post_process', adt='DefaultSolution')
         ok = False
         for bi, si, st in pp.assignments():
-            if canon(pp.sym_place(st['p'])) == 'self.status':
+            if st['p']['p'] and canon(pp.sym_place(st['p'])) == 'self.status':
                 src = canon(pp.sym_rvalue(st['rv']))
                 ok = True
                 R.check(src == 'arg4.status', 'solstatus-src%s' % tag,
